@@ -1,8 +1,10 @@
 (** * C02 -- Optimisation never changes observable behaviour. *)
-From Coq Require Import String ZArith List Bool Arith.
+From Coq Require Import String ZArith List Bool Arith PrimFloat.
 From NSL Require Import Base.Types Base.Syntax Model.PyNum Model.IR Model.VM Model.WfIR Model.Elab Model.Lower Model.Opt Spec.RefSem Proofs.WfIRProofs Proofs.OptProofs Proofs.ForwardProofs Harness.FwdLib
      Proofs.OpsAgree Proofs.LowerExprProofs Proofs.ElabExprProofs Proofs.ReturnExprProofs Proofs.CallAgreeProofs Proofs.LowerStmtProofs Proofs.ElabStmtProofs
-     Proofs.StraightLineProofs Proofs.LowerWfProofs Proofs.StraightOptProofs.
+     Proofs.StraightLineProofs Proofs.LowerWfProofs Proofs.StraightOptProofs
+     Proofs.FlowFuncProofs Proofs.FlowElabProofs Proofs.FlowTableProofs Proofs.FlowSimProofs Proofs.FlowSimExample Proofs.ForwardFlowProofs Harness.FwdFlowLib Proofs.FlowOptProofs
+     Proofs.ForwardFlowFailProofs Proofs.ConstCastFlowProofs Harness.CCLib Proofs.OptPipelineExample Proofs.FlowOptFullProofs.
 From NSLDyn Require Gen_Shapes.
 Import ListNotations.
 
@@ -117,7 +119,127 @@ Example C02_fragment_example :
   run 10 {| p_funcs := [F]; p_globals := [] |} F 0 {| regs := []; vars := []; fargs := [VInt 7] |} {| globals := []; hp := [] |} = Done (VInt 7) {| globals := []; hp := [] |}.
 Proof. vm_compute. repeat split; reflexivity. Qed.
 
+(** PARTIAL: load-after-store forwarding preserves WHOLE FUNCTIONS WITH ARBITRARY CONTROL FLOW.  For every IR function -- any
+    number of blocks, conditional and unconditional branches (conditionals, loops), calls and returns anywhere -- whose
+    instruction references are pairwise distinct, whose operands are constants or results of earlier instructions of the
+    same block, whose branch targets are not instruction references and in which a store and the load that directly follows
+    it agree on the scope: whenever the function returns a value w in state vs1 on the VM model (inside any program P, for
+    any arguments, registers, globals and heap), the function OptimizeLoadAfterStore produces returns the same w in the same
+    vs1.  The proof is a simulation by induction on the fuel of the original run: inside a block the pass's state (the
+    previous instruction and the replacement map) is carried instruction by instruction ([Suf], [suf_kept], [suf_fwd]); a
+    removed load costs the original one step and the optimised function none; registers of loads removed from other blocks
+    -- or from an earlier execution of this block in a loop -- are never read before they are written again ([Inv] with the
+    dead set); a branch lands on the block of the same index in both functions ([bol_split], [bol_app]: offsets of the
+    shortened blocks); a call runs the same callee from the same state (fuel monotonicity [run_mono]).  Under block-local
+    operands the function-wide renaming of the real pass only touches the block itself ([las_blocks_map]).
+    [flow_hyps_b] decides the hypotheses and is evaluated by the check on every function of every generated program
+    (after the constant-cast pass); the constant-cast pass itself is covered by the value-level theorems above and the
+    correspondence. *)
+Theorem C02_forwarding_preserves_functions_partial : forall (P : program) (F : ifunc), flow_hyps F ->
+  forall fuel fr vs w vs1, run fuel P F 0 fr vs = Done w vs1 -> exists fuel', run fuel' P (opt_load_after_store F) 0 fr vs = Done w vs1.
+Proof. exact forwarding_preserves_functions. Qed.
+
+Theorem C02_flow_fragment_test_sound : forall (P : program) (F : ifunc), flow_hyps_b F = true ->
+  forall fuel fr vs w vs1, run fuel P F 0 fr vs = Done w vs1 -> exists fuel', run fuel' P (opt_load_after_store F) 0 fr vs = Done w vs1.
+Proof. exact fwdflow_sound. Qed.
+
+(** with C01: a source function with nested conditionals, lowered and then optimised, returns the reference value *)
+Theorem C02_conditional_source_to_optimised_partial :
+  forall (M : module) (fn : func) (n : nat) (l : list stmt) (e : expr) (tf : tfunc) (F : ifunc),
+    f_body fn = l ++ [SRet (Some e)] -> forallb (stop n) l = true -> spure e = true ->
+    elab_func (genv_of M) (genvl M) fn = EOk tf -> lower_func (m_structs M) (glnames M) tf = LOk F ->
+    forall tl te, tf_body tf = tl ++ [TRet (Some te)] -> length tl = length l ->
+    forallb tok (flat_map (topexprs n) tl ++ [te]) = true ->
+    lits_exact (flat_map tflits (flat_map (topexprs n) tl ++ [te])) -> (forall q, In q (flat_map tflits (flat_map (topexprs n) tl ++ [te])) -> PrimFloat.eqb q q = true) ->
+    Forall (fresh_decl (glnames M) (argnames fn)) l ->
+    flow_hyps_b F = true ->
+    forall (P : program) (ws : list rval) (g : RefSem.frame) (vs : vmstate),
+      Forall2 (fun p w => has_ty w (fst p)) (f_args fn) ws ->
+      (forall x, In x (map snd (f_args fn)) -> ~ In x (glnames M)) ->
+      (forall x p, find (fun q => String.eqb (fst q) x) (genvl M) = Some p ->
+         num_ty (snd p) /\ exists w, find (fun q => String.eqb (fst q) x) g = Some (fst p, SV w) /\ has_ty w (snd p) /\ slookup x (globals vs) = Some (v_of w)) ->
+      forall fuel fl st', exec_list M fuel (f_body fn) (call_state fn ws g) = ROk (fl, st') ->
+        exists v vs', fl = OReturn (SV v) /\
+          exists N, run N P (opt_load_after_store F) 0 (call_frame ws (init_regs F)) vs = Done (v_of v) vs'.
+Proof. exact flow_source_to_optimised. Qed.
+
+(** non-vacuity: the lowered function of C01's conditional instance (five blocks) satisfies the hypotheses, the pass removes
+    loads from it, and the optimised function returns 13.75 and leaves g = 7 *)
+Example C02_flow_example :
+  flow_hyps_b fs_F = true /\
+  (Nat.ltb 1 (length (fn_blocks fs_F)) && existsb (fun b => negb (Nat.eqb (length (las_scan None (b_code b) [])) 0)) (fn_blocks fs_F)) = true /\
+  run 80 {| p_funcs := [fs_F]; p_globals := ["g"%string] |} (opt_load_after_store fs_F) 0 (call_frame fs_ws (init_regs fs_F)) fs_vs = Done (VFloat 13.75%float) {| globals := [("g"%string, VInt 7)]; hp := [] |}.
+Proof. exact (conj fs_fwd_hyps (conj fs_fwd_active fs_opt_value)). Qed.
+
+(** PARTIAL -> the WHOLE OPTIMISER on one function, values AND failures.  [final out] says the run ended: with a value and a
+    state, or with an error of the VM (missing key, type error, division by zero, index error, ...).
+    (a) forwarding: under the hypotheses of C02_forwarding_preserves_functions_partial the optimised function ends exactly as the
+        original -- same value and state, or the same error (a removed load never fails: the store before it has just
+        written the variable; every kept instruction fails in the optimised function exactly as in the original);
+    (b) constant casts: for a table T (cast reference -> constant reference) and new constants N, the function whose blocks
+        are rewritten with T (casts of constants removed, uses renamed to the constant holding the folded value) ends
+        exactly as the original, started from its own constant registers -- two simulations: first the same code with the
+        longer constant table (the new registers are never read), then the folding (a folded cast takes one step that cannot
+        fail and yields the VM's own CAST of the constant, C02_constant_folding_is_vm_cast; constant registers are never
+        overwritten).  Hypotheses: distinct references, constants not among the instruction references, block-local
+        operands, every table entry a cast of a constant whose folded value the named constant holds;
+    (c) both passes: [optimiser_preserves_outcomes].  [plan] recomputes T and N, [cc_hyps_b] and [flow_hyps_b] decide the
+        hypotheses, and the check also evaluates that the planned function is bit for bit what the optimiser model produces
+        from the real unoptimised IR (the model is compared with the real optimised IR).  One hypothesis is not decidable by
+        computation inside Coq and is tested, not proved, per function: among the constants of one type, values that Python
+        calls equal are identical (no +0.0 beside -0.0) -- [vals_exact]. *)
+Theorem C02_forwarding_preserves_outcomes_partial : forall (P : program) (F : ifunc), flow_hyps F ->
+  forall fuel fr vs out, run fuel P F 0 fr vs = out -> final out -> exists fuel', run fuel' P (opt_load_after_store F) 0 fr vs = out.
+Proof. exact forwarding_preserves_outcomes. Qed.
+
+Theorem C02_const_casts_preserve_outcomes_partial : forall (P : program) (F : ifunc) T C', cc_hyps F T C' ->
+  forall fuel args vs out, run fuel P F 0 (entry F args) vs = out -> final out ->
+  exists fuel', run fuel' P (cc_apply T C' F) 0 (entry (cc_apply T C' F) args) vs = out.
+Proof. exact const_casts_preserve_outcomes. Qed.
+
+Theorem C02_optimiser_preserves_outcomes_partial : forall (P : program) (F : ifunc) T N,
+  cc_hyps_b F T N = true -> vals_exact (fold_vals F (fn_consts F ++ N)) -> flow_hyps_b (cc_apply T (fn_consts F ++ N) F) = true ->
+  let F'' := opt_load_after_store (cc_apply T (fn_consts F ++ N) F) in
+  forall fuel args vs out, run fuel P F 0 (entry F args) vs = out -> final out ->
+  exists fuel', run fuel' P F'' 0 (entry F'' args) vs = out.
+Proof. exact optimiser_check_sound. Qed.
+
+(** with C01: a source function with nested conditionals, lowered and optimised by BOTH passes, returns the reference value *)
+Theorem C02_conditional_source_to_fully_optimised_partial :
+  forall (M : module) (fn : func) (n : nat) (l : list stmt) (e : expr) (tf : tfunc) (F : ifunc),
+    f_body fn = l ++ [SRet (Some e)] -> forallb (stop n) l = true -> spure e = true ->
+    elab_func (genv_of M) (genvl M) fn = EOk tf -> lower_func (m_structs M) (glnames M) tf = LOk F ->
+    forall tl te, tf_body tf = tl ++ [TRet (Some te)] -> length tl = length l ->
+    forallb tok (flat_map (topexprs n) tl ++ [te]) = true ->
+    lits_exact (flat_map tflits (flat_map (topexprs n) tl ++ [te])) -> (forall q, In q (flat_map tflits (flat_map (topexprs n) tl ++ [te])) -> PrimFloat.eqb q q = true) ->
+    Forall (fresh_decl (glnames M) (argnames fn)) l ->
+    forall T N, cc_hyps_b F T N = true -> vals_exact (fold_vals F (fn_consts F ++ N)) -> flow_hyps_b (cc_apply T (fn_consts F ++ N) F) = true ->
+    let F'' := opt_load_after_store (cc_apply T (fn_consts F ++ N) F) in
+    forall (P : program) (ws : list rval) (g : RefSem.frame) (vs : vmstate),
+      Forall2 (fun p w => has_ty w (fst p)) (f_args fn) ws ->
+      (forall x, In x (map snd (f_args fn)) -> ~ In x (glnames M)) ->
+      (forall x p, find (fun q => String.eqb (fst q) x) (genvl M) = Some p ->
+         num_ty (snd p) /\ exists w, find (fun q => String.eqb (fst q) x) g = Some (fst p, SV w) /\ has_ty w (snd p) /\ slookup x (globals vs) = Some (v_of w)) ->
+      forall fuel fl st', exec_list M fuel (f_body fn) (call_state fn ws g) = ROk (fl, st') ->
+        exists v vs', fl = OReturn (SV v) /\
+          exists K, run K P F'' 0 (call_frame ws (init_regs F'')) vs = Done (v_of v) vs'.
+Proof. exact flow_source_to_fully_optimised. Qed.
+
+(** non-vacuity: f(float x, int a) -> float { float y = x * 2; if (a > 1) { y = y + 2; } return y + 3; } -- three casts of int
+    constants fold (two of them to the same new constant), three blocks; the planned function is what the optimiser model
+    produces, the theorem applies, and both functions return 8 at x = 1.5, a = 4 *)
+Example C02_optimiser_example :
+  (length op_T = 3 /\ length op_N = 2 /\ length (fn_blocks op_F) = 3) /\
+  (cc_hyps_b op_F op_T op_N = true /\ flow_hyps_b (cc_apply op_T (fn_consts op_F ++ op_N) op_F) = true /\
+   match optimise_func op_F with OOk F'' => Model.IREq.ifunc_eqb (opt_load_after_store (cc_apply op_T (fn_consts op_F ++ op_N) op_F)) F'' | _ => false end = true) /\
+  vals_exact (fold_vals op_F (fn_consts op_F ++ op_N)).
+Proof. exact (conj op_plan_shape (conj op_checks op_exact)). Qed.
+
 Eval compute in "ASSUMPTIONS C02_forwarding_preserves_single_block_functions_partial"%string. Print Assumptions C02_forwarding_preserves_single_block_functions_partial.
 Eval compute in "ASSUMPTIONS C02_straight_line_source_to_optimised_partial"%string. Print Assumptions C02_straight_line_source_to_optimised_partial.
 Eval compute in "ASSUMPTIONS C02_optimised_wellformed_never_undefined_partial"%string. Print Assumptions C02_optimised_wellformed_never_undefined_partial.
+Eval compute in "ASSUMPTIONS C02_forwarding_preserves_functions_partial"%string. Print Assumptions C02_forwarding_preserves_functions_partial.
+Eval compute in "ASSUMPTIONS C02_conditional_source_to_optimised_partial"%string. Print Assumptions C02_conditional_source_to_optimised_partial.
+Eval compute in "ASSUMPTIONS C02_optimiser_preserves_outcomes_partial"%string. Print Assumptions C02_optimiser_preserves_outcomes_partial.
+Eval compute in "ASSUMPTIONS C02_const_casts_preserve_outcomes_partial"%string. Print Assumptions C02_const_casts_preserve_outcomes_partial.
 Eval compute in "END"%string.
